@@ -173,8 +173,13 @@ def r_expand(P, u, rep):
                    where=where, facts=facts)
             continue
         S, H = B[2]
-        want_S = 'subst(find_macro.body, read_macro_args(&var, tok, find_macro.params, find_macro.va_args_name))' if funclike else 'find_macro.body'
-        rep.ob('R09.2', '%s:%s:%s-replacement-source' % (U, fn, kind), show(S) == want_S,
+        if funclike:
+            ok_S = S[0] == 'call' and S[1] == 'subst' and len(S[2]) == 2 and show(S[2][0]) == 'find_macro.body' and S[2][1][0] == 'call' and S[2][1][1] == 'read_macro_args'
+            want_S = 'subst(m->body, <arguments read by read_macro_args>)'
+        else:
+            ok_S = show(S) == 'find_macro.body'
+            want_S = 'm->body'
+        rep.ob('R09.2', '%s:%s:%s-replacement-source' % (U, fn, kind), ok_S,
                'add_hideset is applied to %s instead of %s' % (show(S), want_S), where=where, facts=facts)
         leaves = sorted(_norm_leaf(x) for x in _flatten_union(H))
         if funclike:
@@ -207,7 +212,7 @@ def r_subst(P, u, rep):
     fn = 'subst'
     it, paths, classes = explore_subst(P, u)
     line = u.fn(fn).line
-    rep.rule('R09.3', 'in subst the operands of # and ## are taken unexpanded (stringize/paste/copy of arg->tok), and exactly the parameters that are not operands of # or ## are replaced by preprocess2(arg->tok)', floor=5)
+    rep.rule('R09.3', 'in subst the operands of # and ## are taken unexpanded (stringize/paste/copy of arg->tok), and exactly the parameters that are not operands of # or ## are replaced by preprocess2(arg->tok)', floor=10)
     for need in ('#', '##'):
         if need not in classes:
             raise AnalysisBroken('subst no longer compares tokens against %r' % need)
@@ -369,7 +374,7 @@ def r_arg_one(P, u, rep):
     fn = 'read_macro_arg_one'
     if fn not in u.functions or 'new_eof' not in u.functions:
         raise AnalysisBroken('anchor %s/new_eof vanished' % fn)
-    rep.rule('R09.5', 'read_macro_arg_one copies tokens while tracking parenthesis depth: it stops only at depth 0 on ")" (or "," unless reading the variadic rest), diagnoses EOF, and returns the copied list terminated by an EOF token with *rest at the terminator', floor=9)
+    rep.rule('R09.5', 'read_macro_arg_one copies tokens while tracking parenthesis depth: it stops only at depth 0 on ")" (or "," unless reading the variadic rest), diagnoses EOF, and returns the copied list terminated by an EOF token with *rest at the terminator', floor=22)
     lits = literals_compared(u.fn(fn))
     lits += [x for x in ('(', ')', ',') if x not in lits]     # a spelling the code no longer tests still exists in the input
     classes = lits + [OTHER, EOFC]
@@ -756,7 +761,7 @@ def r_definition(P, u, rep):
     for f in (fn, 'read_macro_params', 'add_macro', 'copy_line'):
         if f not in u.functions:
             raise AnalysisBroken('anchor %s vanished' % f)
-    rep.rule('R09.6', 'a #define introduces a function-like macro iff "(" follows the name with no white space; the name must be an identifier; parameters and body are read from the right tokens and stored in the Macro', floor=8)
+    rep.rule('R09.6', 'a #define introduces a function-like macro iff "(" follows the name with no white space; the name must be an identifier; parameters and body are read from the right tokens and stored in the Macro', floor=16)
     lits = literals_compared(u.fn(fn))
     lits += [x for x in ('(',) if x not in lits]
     classes = lits + [OTHER]
@@ -1095,7 +1100,7 @@ def r_builtins(P, u, rep, eit, epaths):
     for f in ('init_macros', 'add_builtin', 'add_macro', 'new_num_token', 'new_str_token'):
         if f not in u.functions:
             raise AnalysisBroken('anchor %s vanished' % f)
-    rep.rule('R09.8', 'the five dynamic macros are registered with a handler of the right behaviour (__LINE__/__FILE__ from the outermost invocation, __COUNTER__ counts up by one per use), the handler test precedes the ordinary expansion paths and its result replaces exactly the one macro token', floor=14)
+    rep.rule('R09.8', 'the five dynamic macros are registered with a handler of the right behaviour (__LINE__/__FILE__ from the outermost invocation, __COUNTER__ counts up by one per use), the handler test precedes the ordinary expansion paths and its result replaces exactly the one macro token', floor=16)
     A = Agg(rep)
     ln = lambda f: '%s:%d' % (U, u.fn(f).line)
     # -- application path
